@@ -21,7 +21,7 @@ for d in sorted(glob.glob(os.path.join(ROOT, "seeded", "*", ""))):
 n = len(rows)
 det = sum(1 for v in reg.values() if v.startswith("DETECTED"))
 conc = sum(1 for v in reg.values() if "concrete" in v)
-head = ("%d confirmed changes (3 are the reverses of the fix: commits, %d come from independent sub-agents in twenty-three batches; the "
+head = ("%d confirmed changes (3 are the reverses of the fix: commits, %d come from independent sub-agents in twenty-four batches; the "
         "third and later batches were asked for changes that are hard to notice and told which earlier ideas were already known).  Each "
         "compiles and leaves the unedited suite at 101 passed (gen/confirm_mut.sh in a scratch worktree: patch only / patch+demo "
         "/ demo only).  Last full regression (gen/seeded_regress.sh, quick tier, default seed): %d of %d detected by the check of "
@@ -47,7 +47,7 @@ head = ("%d confirmed changes (3 are the reverses of the fix: commits, %d come f
         "registry key, i.e. inside the recorded finding KF-key-concat, which the world model cannot express and the storage-level families "
         "do not reach through CreatePair) and C05-agent19 (it acts only on a pair that an ordinary account instantiated directly, outside "
         "the factory, and then provisions itself: the op language creates pairs through the factory only).\n\n"
-        "Batches 14-23 (session 4; 4-8 of 10 missed at first in each) again exposed what the driver could not yet SAY: the build profile of "
+        "Batches 14-24 (session 4; 4-8 of 10 missed at first in each) again exposed what the driver could not yet SAY: the build profile of "
         "the deployed wasm (debug assertions off), time passing between operations (block height), the wire spelling of hook payloads, JSON "
         "escapes, a chain-level admin, a counterfeit share token whose minter is the pair, callers whose names the address codec refuses, "
         "whole Receive envelopes as payloads, rates and limits with a given number of fractional digits, thirty-plus registered denoms, "
